@@ -43,6 +43,7 @@ def main():
     prop = args.pop(0)
     tier = "quick"
     suite = False
+    missing = False
     sub = None
     while args:
         a = args.pop(0)
@@ -50,6 +51,8 @@ def main():
             tier = args.pop(0)
         elif a == "--suite":
             suite = True
+        elif a == "--missing":          # only the patches that have no entry in results.json yet
+            missing = True
         else:
             sub = a
     mdir = os.path.join(VERIF, "mutants", prop)
@@ -59,6 +62,8 @@ def main():
     for patch in sorted(glob.glob(os.path.join(mdir, "*.patch"))):
         name = os.path.basename(patch)[:-6]
         if sub and sub not in name:
+            continue
+        if missing and name in results:
             continue
         scratch = "/tmp/mutant-%s-%d" % (prop, os.getpid())
         rc, o = sh(["git", "-C", "/repo", "worktree", "add", "-q", "--detach", scratch, "HEAD"])
